@@ -477,40 +477,80 @@ def r12_8(ctx, rep):
         if not (len(args) == 2 and args[0][0] == "field" and strip_ids(args[0][1]) == ("arg", 1) and args[1] == ("arg", 2)):
             bad.append(("inner-read-args", "the inner read is not `self.<field>.read(buf)` on the caller's buffer: %s" % ", ".join(expr_s(a) for a in args), cn))
         n_cnt = 0
+        # closures that a pass-through combinator (`inspect` / `map`) runs on the inner read's Ok value: their argument IS the delivered count
+        delivered_insts = set()
+        for cn2 in P.calls(r"result::Result::<T, E>::(inspect|map|and_then)$"):
+            a2 = [strip_ids(x) for x in event_args(g, cn2)]
+            if a2 and a2[0][0] == "call" and re.search(r"Read::read$", a2[0][1]):
+                for sub in g.closure_insts.get(cn2, []):
+                    delivered_insts.add(sub.id)
+
+        def is_delivered(o):
+            if o[0] == "okval" and o[1][0] == "call" and re.search(r"Read::read$", o[1][1]):
+                return True
+            return False
+
+        def is_delivered_raw(o_raw):
+            # un-stripped: ('cl_arg', inst id, k) of a delivered-count closure (possibly behind a deref that provenance erases)
+            found = []
+
+            def walk(x):
+                if isinstance(x, tuple) and x:
+                    if x[0] == "cl_arg" and x[1] in delivered_insts:
+                        found.append(x)
+                    for y in x:
+                        walk(y)
+            walk(o_raw)
+            return bool(found) and isinstance(o_raw, tuple) and o_raw[0] == "cl_arg"
         for n in sorted(P.live):
             inst = g.inst(n)
-            if inst.id != 0:
+            if inst.id != 0 and inst.id not in delivered_insts:
                 continue
             for si, st in enumerate(g.stmts(n)):
                 if st["k"] != "assign":
                     continue
                 pl = st["p"]
-                if pl["l"] == 1 and pl["proj"] and pl["proj"][0] == "deref":
-                    e = strip_ids(g.prov_rvalue(inst, st["rv"], (n, si)))
-                    fld = [el for el in pl["proj"] if isinstance(el, dict) and "f" in el]
-                    fname = fld[-1].get("n") if fld else "?"
+                fld = [el for el in pl["proj"] if isinstance(el, dict) and "f" in el and (el.get("adt") or "") and not str(el.get("adt")).startswith("closure:")]
+                if fld and pl["proj"] and pl["proj"][-1] is fld[-1]:
+                    pe = strip_ids(g.prov_place(inst, pl))
+                    if not (pe[0] == "field" and pe[1] == ("arg", 1)):
+                        continue
+                    raw = g.prov_rvalue(inst, st["rv"], (n, si))
+                    e = strip_ids(raw)
+                    fname = fld[-1].get("n")
                     # counters only: integer fields (flags and the like say nothing about how many bytes were consumed)
-                    adt = ctx.facts.adts.get((fld[-1].get("adt") or "")) if fld else None
+                    adt = ctx.facts.adts.get((fld[-1].get("adt") or ""))
                     fty = next((f["ty"] for v in (adt or {}).get("variants", []) for f in v["fields"] if f["name"] == fname), "")
                     if not re.match(r"(usize|u64|u32|u128|i64|isize)$", fty):
                         continue
                     n_cnt += 1
                     ok = False
-                    x = e
+                    x, xr = e, raw
                     if x[0] == "field" and x[1][0] == "binop":
-                        x = x[1]
+                        x, xr = x[1], raw[1]
                     if x[0] == "binop" and x[1].startswith("Add"):
-                        ops = [x[2], x[3]]
-                        isf = [o for o in ops if o[0] == "field" and o[1] == ("arg", 1) and o[2] == fname]
-                        isn = [o for o in ops if o[0] == "okval" and o[1][0] == "call" and re.search(r"Read::read$", o[1][1])]
+                        ops = [(x[2], xr[2]), (x[3], xr[3])]
+                        isf = [o for o, _r in ops if o[0] == "field" and o[1] == ("arg", 1) and o[2] == fname]
+                        isn = [o for o, r_ in ops if is_delivered(o) or is_delivered_raw(r_)]
                         ok = len(isf) == 1 and len(isn) == 1
                     if not ok:
                         bad.append(("counter:%s" % fname, "self.%s is set to %s, which is not `self.%s + <bytes delivered by the inner read>`"
                                     % (fname, expr_s(e), fname), n))
-                if pl["l"] == 0 and st["rv"]["k"] == "agg" and "Ok" in str(st["rv"].get("variant", st["rv"].get("adt", ""))):
+                if inst.id == 0 and pl["l"] == 0 and not pl["proj"] and st["rv"]["k"] == "agg" \
+                        and "Ok" in str(st["rv"].get("variant", st["rv"].get("adt", ""))):
                     okv = strip_ids(g.prov_rvalue(inst, st["rv"], (n, si)))
         okx = okv[3][0] if okv and okv[0] == "agg" and len(okv) > 3 and okv[3] else None
-        if not (okx and okx[0] == "okval" and okx[1][0] == "call" and re.search(r"Read::read$", okx[1][1])):
+        ret_ok = bool(okx and okx[0] == "okval" and okx[1][0] == "call" and re.search(r"Read::read$", okx[1][1]))
+        if not ret_ok and okv is None:
+            # the inner call's Result handed back as it is (possibly through inspect / inspect_err, which do not change it)
+            for d in g.prog.defs(g.insts[0].key).get(0, []):
+                if d[0] != "s":
+                    x = strip_ids(g.prov_call(g.insts[0], d[1]))
+                    while x[0] == "call" and re.search(r"result::Result::<T, E>::(inspect|inspect_err)$", x[1]) and x[2]:
+                        x = x[2][0]
+                    if x[0] == "call" and re.search(r"Read::read$", x[1]):
+                        ret_ok = True
+        if not ret_ok:
             bad.append(("returned-count", "the Ok value returned is %s, not the inner read's count" % (expr_s(okv) if okv else "?"), cn))
         for (what, detail, n) in bad:
             rep.violation("R12.8", "%s|%s" % (nm_, what), nm_, detail + ": after a short read (buffer refill boundary) the scan's offsets drift from the "
@@ -550,7 +590,7 @@ def r12_9(ctx, rep):
         g = ctx.graph(k)
         P = ctx.product(k)
         nm_ = short_key(k)
-        decs = [n for n in inlined_calls(g, c09.DECODE_KEY, P.live) if g.inst(n).id == 0]
+        decs = [n for n in inlined_calls(g, c09.DECODE_KEY, P.live)]      # in next() itself or in a private helper of it
         segs = [n for n in P.calls(r"Segment::<C>::new$|Segment::new$") if not g.term(n).get("exp")]
         if not rep.expect("R12.9", "%s: one decode, one segment construction" % nm_, len(decs) == 1 and len(segs) == 1,
                           "found %d decode call(s), %d Segment::new" % (len(decs), len(segs)), where=g.where(g.entry)):
@@ -603,9 +643,34 @@ def r12_9(ctx, rep):
                 if i.parent is None or i.parent.id != 0:
                     continue
             args = [strip_ids(x) for x in event_args(g, n)]
-            derived = any(contains(x, lambda y: isinstance(y, tuple) and y and y[0] in ("errval", "err_of", "residual")
-                                   or (isinstance(y, tuple) and len(y) > 1 and y[0] in ("call", "ret") and re.search(r"Decode>?::decode$", str(y[1]))))
-                          for x in args)
+            def holds_decoder(node):
+                sub_ = g.callee_inst.get(node)
+                if sub_ is None:
+                    return False
+                for dn in decs:
+                    i_ = g.inst(dn)
+                    while i_ is not None:
+                        if i_ is sub_:
+                            return True
+                        i_ = i_.parent
+                return False
+            from_dec = lambda y: isinstance(y, tuple) and y and y[0] in ("errval", "err_of", "residual") \
+                or (isinstance(y, tuple) and len(y) > 1 and y[0] in ("call", "ret") and re.search(r"Decode>?::decode$", str(y[1]))) \
+                or (isinstance(y, tuple) and len(y) > 3 and y[0] in ("ret", "call") and isinstance(y[3], tuple) and holds_decoder(y[3]))
+            derived = any(contains(x, from_dec) for x in args)
+            if not derived:
+                # the error handed to an `inspect_err` / `map_err` / `or_else` closure whose receiver comes from the decoder
+                def err_arg(y):
+                    if isinstance(y, tuple) and y and y[0] == "cl_arg" and isinstance(y[1], int):
+                        ci = g.insts[y[1]]
+                        if ci.parent is not None:
+                            cn_ = (ci.parent.id, ci.call_bb)
+                            t_ = g.term(cn_)
+                            if t_["k"] == "call" and re.search(r"result::Result::<T, E>::(inspect_err|map_err|or_else)$", t_["callee"]["path"]):
+                                a_ = event_args(g, cn_)
+                                return bool(a_) and (contains(a_[0], from_dec) or contains(strip_ids(a_[0]), from_dec))
+                    return False
+                derived = any(contains(x, err_arg) for x in event_args(g, n))
             if not derived:
                 made.append(n)
         for n in made:
